@@ -66,6 +66,9 @@ def t_candidates(h):
     orders = mk_orders(h, 3)
     for j, o in enumerate(orders):
         o.f['status'] = h.ctx.fresh_str(f'st{j}', among=['ACTIVE', 'EXECUTED', 'CANCELED'])
+        # the order type is a finite enumeration: a MARKET order submitted by a fill hook is a candidate like any other (it is
+        # priced at the current price and fills at the point of the path where it was submitted)
+        o.f['type'] = h.ctx.fresh_str(f'ty{j}', among=['LIMIT', 'STOP', 'MARKET'])
     reg = Obj(None, {'get_active_orders': Builtin('get_active_orders', lambda i, a, k: list(orders))})
     store = Obj(None, {'orders': reg})
     h.ctx.cfg.globals[f'{BM}.store'] = lambda i: store
